@@ -1042,6 +1042,55 @@ def report_model_mismatches(run: Run, rt_body, recs, bad, stats):
 # ------------------------------------------------------------------------------------------------ entry points
 
 
+def signed_zero_scenarios(run: Run, impl: Impl):
+    """Python float literals that are EQUAL as Python objects but are different numbers: 0.0 and -0.0, used one after the other in one
+    process (x + 0.0 first, then x * -0.0, -0.0 * x, x / -0.0).  The built model must agree with numpy including the SIGN of zeros and
+    infinities; so must the value propagated for constant operands.  Returns the number of comparisons."""
+    np = impl.np
+    n = 0
+
+    def same(got, want):
+        return got.dtype == want.dtype and got.shape == want.shape and np.array_equal(got, want, equal_nan=True) and \
+            np.array_equal(np.signbit(got), np.signbit(want))
+
+    for op in impl.opsets:
+        for dt in (np.float64, np.float32):
+            xv = np.array([1.0, 2.0, -3.0, 0.0], dtype=dt)
+            x = impl.argument(impl.Tensor(dt, (4,)))
+            for first, second in ((0.0, -0.0), (-0.0, 0.0)):
+                try:
+                    with impl.F.operator_overloading(op, type_promotion=True, constant_promotion=True):
+                        outs = {"shifted": x + first, "prod": x * second, "rprod": second * x, "quot": x / second, "again": x * first}
+                        cq = (op.const(xv) * second)._value
+                    model = impl.spox.build({"x": x}, outs)
+                    so = impl.ort.SessionOptions()
+                    so.log_severity_level = 3
+                    got = dict(zip(outs, impl.ort.InferenceSession(model.SerializeToString(), so).run(None, {"x": xv})))
+                except Exception as e:  # noqa: BLE001
+                    run.fail("impl", "C17/signed-zero/raises", f"x (*,/,+) ±0.0 with {np.dtype(dt).name} raised {type(e).__name__}: {str(e)[:150]}",
+                             {"dtype": np.dtype(dt).name, "literals": [first, second]})
+                    continue
+                with np.errstate(all="ignore"):
+                    want = {"shifted": xv + first, "prod": xv * second, "rprod": second * xv, "quot": xv / second, "again": xv * first}
+                for k in outs:
+                    n += 1
+                    if not same(got[k], want[k].astype(dt)):
+                        run.fail("impl", "C17/signed-zero/value-differs-from-numpy",
+                                 f"{k}: with x={xv.tolist()} ({np.dtype(dt).name}) and the literals {first!r} then {second!r}, the built model gives "
+                                 f"{got[k].tolist()} but numpy gives {want[k].tolist()} (signs of zero / infinity compared)",
+                                 {"dtype": np.dtype(dt).name, "literals": [first, second], "expression": k, "module": op.__name__})
+                        break
+                if cq is not None:
+                    n += 1
+                    with np.errstate(all="ignore"):
+                        w = (xv * second).astype(dt)
+                    if not same(np.asarray(cq.value), w):
+                        run.fail("impl", "C17/signed-zero/propagated-value-differs-from-numpy",
+                                 f"const(x) * {second!r}: propagated {np.asarray(cq.value).tolist()} but numpy gives {w.tolist()}",
+                                 {"dtype": np.dtype(dt).name, "literals": [first, second], "module": op.__name__})
+    return n
+
+
 def run(run: Run) -> int:
     ok = run.check_theorems(PROPS, CONE, thorough_coqchk=False)
     if run.tier == "thorough" and ok:
@@ -1066,6 +1115,7 @@ def run(run: Run) -> int:
         hist["operand_kinds"][k] = hist["operand_kinds"].get(k, 0) + 1
         sh_ = f"{tuple(c['sx'])}x{tuple(c['sy'])}"
         hist["shapes"][sh_] = hist["shapes"].get(sh_, 0) + 1
+    n_zero = signed_zero_scenarios(run, impl)
     recs, triples, bad, stats = evaluate(run, impl, cases, rt_body, prop_every=(3 if run.tier == "quick" else 2), hist=hist)
     real = report_model_mismatches(run, rt_body, recs, bad, stats)
     distinct = {json.dumps([c["d"], c["op"], c["x"][:2], None if c["y"] is None else c["y"][:2]]) for c in cases}
@@ -1076,7 +1126,8 @@ def run(run: Run) -> int:
             samples.append({"expression": describe(r["case"]), "implementation": r["coq"] or r.get("other"),
                             "onnxruntime": None if "got" not in r else {"dtype": str(r["got"].dtype), "values": r["got"].tolist()}})
     cov = {
-        "evaluations": len(cases),
+        "evaluations": len(cases) + n_zero,
+        "signed_zero_comparisons": n_zero,
         "distinct_nontrivial": len(distinct),
         "rule": "operator x promotion setting (or outside any block) x operand kinds (Var of 12 element types, Python int, Python float, "
                 "numpy scalar of 12 dtypes; scalars on either side) x broadcasting shape pair; distinct by (setting, operator, operand kinds/"
